@@ -279,65 +279,7 @@ func runC10(p *core.Prog, r *core.Report, tier string) {
 			if t == nil || !strings.Contains(t.String(), "v2.ProposerConfig") {
 				continue
 			}
-			// the options call inside the loop
-			core.EachInstr(f, func(in ssa.Instruction) {
-				c, ok := in.(*ssa.Call)
-				if !ok || !l.Contains(c.Pos()) || c.Call.StaticCallee() == nil || c.Call.StaticCallee().Pkg != f.Pkg {
-					return
-				}
-				takesEntry := false
-				for _, a := range c.Call.Args {
-					if _, _, ok := core.RangeElem(a); ok {
-						takesEntry = true
-					}
-				}
-				if !takesEntry {
-					return
-				}
-				nOpt++
-				// after the call the loop is not re-entered
-				var header *ssa.BasicBlock
-				for _, b := range f.Blocks {
-					for _, x := range b.Instrs {
-						if phi, ok := x.(*ssa.Phi); ok && phi.Comment == "rangeindex" && l.Stmt.Pos() <= phi.Pos() && phi.Pos() <= l.Stmt.End() {
-							header = b
-						}
-					}
-				}
-				if header == nil {
-					// position-less phi: take the block containing the loop's index increment compare
-					for _, b := range f.Blocks {
-						for _, x := range b.Instrs {
-							if phi, ok := x.(*ssa.Phi); ok && phi.Comment == "rangeindex" {
-								header = b
-							}
-						}
-					}
-				}
-				if header == nil {
-					r.Undecide("C10.c", core.FnKey(f)+"|first-match-wins", p.Pos(c.Pos()), "cannot locate the loop header")
-					return
-				}
-				w := core.PathQuery{Fn: f, From: c, Target: func(x ssa.Instruction) bool { return x.Block() == header }}.Find()
-				r.Check(w == nil, "C10.c", core.FnKey(f)+"|first-match-wins", p.Pos(c.Pos()), "after applying a matching entry the loop over entries is left", "after applying a matching proposer entry the loop continues: later entries override the first match", p.WitnessText(w)...)
-				// the call is guarded by match == true
-				w2 := core.Unguarded(ds, f, nil, func(x ssa.Instruction) bool { return x == in }, func(cd core.Cond) int {
-					if cd.B == nil {
-						return -1
-					}
-					if !(cd.B.Kind == "phi" || cd.B.IsCall("regexp.Regexp.MatchString") || cd.B.IsCall("bytes.Equal")) {
-						return -1
-					}
-					if !(cd.B.MentionsCall("regexp.Regexp.MatchString") || cd.B.MentionsCall("bytes.Equal")) {
-						return -1
-					}
-					if cd.BoolOnEdge(0) {
-						return 0
-					}
-					return 1
-				})
-				r.Check(w2 == nil, "C10.c", core.FnKey(f)+"|only-matching-entry", p.Pos(c.Pos()), "an entry is applied only when it matched", "a proposer entry can be applied without having matched the validator", p.WitnessText(w2)...)
-			})
+			nOpt += checkFirstMatchOptions(p, r, ds, "C10.c", f, l)
 			// (d) match kinds
 			for _, mc := range core.CallsNamed(f, "MatchString") {
 				if !l.Contains(mc.Pos()) {
@@ -731,6 +673,129 @@ func runC10(p *core.Prog, r *core.Report, tier string) {
 		}
 	}
 	r.Floor("C10.l resolvers", nRes, 2)
+
+	// ---- (m) the proposers list keeps the order of the document ("first matching entry" is about that order):
+	// nothing sorts, reverses or overwrites it in place ----
+	nProp, nPropMut := 0, 0
+	for _, f := range p.FuncsIn("services/blockrelay/v2") {
+		isSrc := func(v ssa.Value) bool {
+			ld, ok := v.(*ssa.UnOp)
+			if !ok {
+				return false
+			}
+			fa, ok := ld.X.(*ssa.FieldAddr)
+			if !ok {
+				return false
+			}
+			st := derefStructOf(fa.X.Type())
+			return st != nil && st.Field(fa.Field).Name() == "Proposers"
+		}
+		core.EachInstr(f, func(in ssa.Instruction) {
+			if v, ok := in.(ssa.Value); ok && isSrc(v) {
+				nProp++
+			}
+		})
+		for _, m := range collectionMutations(f, isSrc) {
+			nPropMut++
+			r.Violate("C10.m", fmt.Sprintf("%s|reorders-proposers#%d", core.FnKey(f), nPropMut), p.Pos(m.Pos()), "the proposers list is changed in place (sorted, reversed or overwritten): 'the first matching proposer entry' is then decided on another order than the document's, and a marshal/unmarshal round trip comes back reordered")
+		}
+	}
+	if nPropMut == 0 {
+		r.Hold("C10.m", "proposers-keep-document-order", "", fmt.Sprintf("%d reads of a proposers list, none leads to an in-place change", nProp))
+	}
+	r.Floor("C10.m reads of proposers lists", nProp, 3)
+
+	// ---- (n) a relay's settings are written tier by tier, least specific first: once a more specific tier has been
+	// applied to a relay object, no value of a less specific tier is stored into it ----
+	tier10 := func(t types.Type) int {
+		s := typeName(t)
+		switch {
+		case strings.HasSuffix(s, "ProposerRelayConfig"):
+			return 30
+		case strings.HasSuffix(s, "v2.ProposerConfig"):
+			return 20
+		case strings.HasSuffix(s, "BaseRelayConfig"):
+			return 15
+		case strings.HasSuffix(s, "v2.ExecutionConfig"):
+			return 10
+		}
+		return -1
+	}
+	nApply := 0
+	for _, f := range p.FuncsIn("services/blockrelay/v2") {
+		core.EachInstr(f, func(in ssa.Instruction) {
+			c, ok := in.(*ssa.Call)
+			if !ok || c.Call.StaticCallee() == nil {
+				return
+			}
+			var obj ssa.Value
+			applied := -1
+			for _, a := range c.Call.Args {
+				if strings.HasSuffix(typeName(a.Type()), "beaconblockproposer.RelayConfig") {
+					obj = a
+				} else if t := tier10(a.Type()); t > applied {
+					applied = t
+				}
+			}
+			if obj == nil || applied < 0 {
+				return
+			}
+			nApply++
+			core.EachInstr(f, func(x ssa.Instruction) {
+				st, ok := x.(*ssa.Store)
+				if !ok {
+					return
+				}
+				fa, ok := st.Addr.(*ssa.FieldAddr)
+				if !ok || fa.X != obj {
+					return
+				}
+				// the tier the stored value is read from
+				src := -1
+				var walk func(v ssa.Value, depth int)
+				walk = func(v ssa.Value, depth int) {
+					if depth > 6 || v == nil {
+						return
+					}
+					switch y := v.(type) {
+					case *ssa.UnOp:
+						if f2, ok := y.X.(*ssa.FieldAddr); ok {
+							if t := tier10(f2.X.Type()); t > src {
+								src = t
+							}
+							return
+						}
+						walk(y.X, depth+1)
+					case *ssa.Phi:
+						for _, e := range y.Edges {
+							walk(e, depth+1)
+						}
+					case *ssa.Convert:
+						walk(y.X, depth+1)
+					case *ssa.ChangeType:
+						walk(y.X, depth+1)
+					case *ssa.Extract:
+						if nx, ok := y.Tuple.(*ssa.Next); ok {
+							if rg, ok := nx.Iter.(*ssa.Range); ok {
+								walk(rg.X, depth+1)
+							}
+						}
+					}
+				}
+				walk(st.Val, 0)
+				if src < 0 || src >= applied {
+					return
+				}
+				objDef, _ := obj.(ssa.Instruction)
+				if w := (core.PathQuery{Fn: f, From: c, Target: func(y ssa.Instruction) bool { return y == x }, Avoid: func(y ssa.Instruction) bool { return objDef != nil && y == objDef }}).Find(); w != nil {
+					id, _, _ := core.FieldOfAddr(fa)
+					r.Violate("C10.n", fmt.Sprintf("%s|%s|less-specific-after-more-specific", core.FnKey(f), id.Name), p.Pos(st.Pos()), "relay field "+id.Name+" is written from a less specific tier after "+core.CalleeName(&c.Call)+" has applied a more specific one to the same relay: the relay's own value is overwritten (precedence inverted)", p.WitnessText(w)...)
+				}
+			})
+		})
+	}
+	r.Floor("C10.n tier applications on relay objects", nApply, 2)
+	r.Hold("C10.n", "tiers-applied-least-specific-first", "", fmt.Sprintf("%d calls applying a tier to a relay object examined", nApply))
 
 	// ---- (g) version dispatch ----
 	if f := p.Func("services/blockrelay", "", "UnmarshalJSON"); f != nil {
@@ -1263,4 +1328,79 @@ func edgeEstablishes(ds *core.Describer, f *ssa.Function, lf core.Leaf, fn, lit 
 		return 1
 	})
 	return w == nil
+}
+
+func derefStructOf(t types.Type) *types.Struct {
+	st, ok := derefStruct(t)
+	if !ok {
+		return nil
+	}
+	return st
+}
+
+// checkFirstMatchOptions: inside the loop l over the proposer entries, the call that applies an entry is reached only
+// when the entry matched, and after it the loop is not entered again (the first matching entry wins). Returns the
+// number of applying calls examined.
+func checkFirstMatchOptions(p *core.Prog, r *core.Report, ds *core.Describer, rule string, f *ssa.Function, l *core.Loop) int {
+	n := 0
+	// the options call inside the loop
+	core.EachInstr(f, func(in ssa.Instruction) {
+		c, ok := in.(*ssa.Call)
+		if !ok || !l.Contains(c.Pos()) || c.Call.StaticCallee() == nil || c.Call.StaticCallee().Pkg != f.Pkg {
+			return
+		}
+		takesEntry := false
+		for _, a := range c.Call.Args {
+			if _, _, ok := core.RangeElem(a); ok {
+				takesEntry = true
+			}
+		}
+		if !takesEntry {
+			return
+		}
+		n++
+		// after the call the loop is not re-entered
+		var header *ssa.BasicBlock
+		for _, b := range f.Blocks {
+			for _, x := range b.Instrs {
+				if phi, ok := x.(*ssa.Phi); ok && phi.Comment == "rangeindex" && l.Stmt.Pos() <= phi.Pos() && phi.Pos() <= l.Stmt.End() {
+					header = b
+				}
+			}
+		}
+		if header == nil {
+			// position-less phi: take the block containing the loop's index increment compare
+			for _, b := range f.Blocks {
+				for _, x := range b.Instrs {
+					if phi, ok := x.(*ssa.Phi); ok && phi.Comment == "rangeindex" {
+						header = b
+					}
+				}
+			}
+		}
+		if header == nil {
+			r.Undecide(rule, core.FnKey(f)+"|first-match-wins", p.Pos(c.Pos()), "cannot locate the loop header")
+			return
+		}
+		w := core.PathQuery{Fn: f, From: c, Target: func(x ssa.Instruction) bool { return x.Block() == header }}.Find()
+		r.Check(w == nil, rule, core.FnKey(f)+"|first-match-wins", p.Pos(c.Pos()), "after applying a matching entry the loop over entries is left", "after applying a matching proposer entry the loop continues: later entries override the first match", p.WitnessText(w)...)
+		// the call is guarded by match == true
+		w2 := core.Unguarded(ds, f, nil, func(x ssa.Instruction) bool { return x == in }, func(cd core.Cond) int {
+			if cd.B == nil {
+				return -1
+			}
+			if !(cd.B.Kind == "phi" || cd.B.IsCall("regexp.Regexp.MatchString") || cd.B.IsCall("bytes.Equal")) {
+				return -1
+			}
+			if !(cd.B.MentionsCall("regexp.Regexp.MatchString") || cd.B.MentionsCall("bytes.Equal")) {
+				return -1
+			}
+			if cd.BoolOnEdge(0) {
+				return 0
+			}
+			return 1
+		})
+		r.Check(w2 == nil, rule, core.FnKey(f)+"|only-matching-entry", p.Pos(c.Pos()), "an entry is applied only when it matched", "a proposer entry can be applied without having matched the validator", p.WitnessText(w2)...)
+	})
+	return n
 }
